@@ -228,6 +228,17 @@ func (v *Validator) VerifyNewConfirms(block *types.Block, sigList []types.SignDa
 	validConfirms := make([]types.SignData, 0, len(sigList))
 	var lastErr error = nil
 
+	// The signers who have signed this block already. A signature can be re-encoded to different bytes which recover to the same signer, so it is not enough to compare signature bytes
+	signers := make(map[string]struct{}, len(block.Confirms)+1)
+	if nodeID, err := block.SignerNodeID(); err == nil {
+		signers[string(nodeID)] = struct{}{}
+	}
+	for _, oldSig := range block.Confirms {
+		if nodeID, err := oldSig.RecoverNodeID(hash); err == nil {
+			signers[string(nodeID)] = struct{}{}
+		}
+	}
+
 	for _, sig := range sigList {
 		// 判断validConfirms中是否已经存在sig了
 		if IsSigExist(validConfirms, sig) {
@@ -252,6 +263,14 @@ func (v *Validator) VerifyNewConfirms(block *types.Block, sigList []types.SignDa
 			log.Warn("Duplicate confirm", "hash", hash.Hex(), "signer", common.ToHex(nodeID[:4]))
 			continue
 		}
+		if _, ok := signers[string(nodeID)]; ok {
+			log.Warn("Duplicate confirm signer", "hash", hash.Hex(), "signer", common.ToHex(nodeID[:4]))
+			if lastErr == nil {
+				lastErr = ErrExistedConfirm
+			}
+			continue
+		}
+		signers[string(nodeID)] = struct{}{}
 		validConfirms = append(validConfirms, sig)
 	}
 	return validConfirms, lastErr
